@@ -7,13 +7,21 @@ use std::sync::Mutex;
 use crate::codec::{self, Api, RateKind};
 use crate::gen::{self, Class};
 use crate::hooks::Poison;
-use crate::util::{hex, jobj, jstr, run_cases, Agg, CaseOut, Rng, RunCfg};
+use crate::util::{hex, jobj, jstr, run_cases, run_indexed, Agg, CaseOut, Rng, RunCfg};
 
 pub fn run(cfg: &RunCfg, agg: &Mutex<Agg>) {
     run_cases(agg, cfg, "bulk", crate::count(cfg, 6000, 150_000), |cs, out| {
         let mut rng = Rng::new(cs);
         let class = gen::class_mix(&mut rng, false);
         one_case(&mut rng, class, out);
+    });
+    // tiny configurations: EVERY subset with at least k members (finite space)
+    let n: u64 = if cfg.thorough { 7 } else { 4 };
+    run_indexed(agg, cfg, "tiny-all-subsets", n * n * 3, |i, out| {
+        let k = (i / 3 / n) as usize + 1;
+        let r = (i / 3 % n) as usize + 1;
+        let rate = RateKind::ALL[(i % 3) as usize];
+        all_subsets_case(&mut Rng::new(i ^ cfg.seed), k, r, rate, out);
     });
     // large configurations, envelope corners and extremes
     run_cases(agg, cfg, "large", crate::count(cfg, 150, 4000), |cs, out| {
@@ -67,6 +75,67 @@ pub fn first_diff(got: &[(usize, Vec<u8>)], want: &[(usize, Vec<u8>)]) -> String
         }
     }
     "equal".into()
+}
+
+fn all_subsets_case(rng: &mut Rng, k: usize, r: usize, rate: RateKind, out: &mut CaseOut) {
+    if !gen::rate_ok(rate, k, r) {
+        return;
+    }
+    for size in [2usize, 66] {
+        let eng = *rng.pick(&codec::EngineKind::all());
+        let api = Api::Rate(rate, eng);
+        let originals = gen::originals(rng, k, size);
+        let desc = format!("k={k} r={r} rate={} size={size} api={}", rate.name(), api.name());
+        let recovery = match codec::encode_fresh(api, k, r, size, &originals) {
+            Ok(v) => v,
+            Err(e) => {
+                out.violate(format!("C01:encode-err:{}", codec::err_name(&e)), format!("{desc}: {e}"));
+                return;
+            }
+        };
+        let total = k + r;
+        // one decoder object serves all subsets (implicit reset between rounds)
+        let mut dec = match codec::make_dec(api, k, r, size, None) {
+            Ok(d) => d,
+            Err(e) => {
+                out.violate(format!("C01:decode-err:{}", codec::err_name(&e)), format!("{desc}: {e}"));
+                return;
+            }
+        };
+        for mask in 0u32..1 << total {
+            if (mask.count_ones() as usize) < k {
+                continue;
+            }
+            let oi: Vec<usize> = (0..k).filter(|i| mask >> i & 1 != 0).collect();
+            let ri: Vec<usize> = (0..r).filter(|j| mask >> (k + j) & 1 != 0).collect();
+            let order = gen::add_order(rng, &oi, &ri, mask % 3 == 0);
+            out.evals += 1;
+            match codec::decode_round(dec.as_mut(), &order, &originals, &recovery, &[]) {
+                Err(e) => {
+                    out.violate(
+                        format!("C01:decode-err:{}", codec::err_name(&e)),
+                        format!("{desc}: subset originals {oi:?} recovery {ri:?}: {e}"),
+                    );
+                    return;
+                }
+                Ok(obs) => {
+                    let want = expected(&originals, &oi);
+                    if obs.iter != want {
+                        out.violate(
+                            "C01:restore-mismatch",
+                            format!("{desc}: subset originals {oi:?} recovery {ri:?}: {}", first_diff(&obs.iter, &want)),
+                        );
+                        return;
+                    }
+                    if !want.is_empty() {
+                        out.nontrivial_key(&format!("all/{k}/{r}/{}/{size}/{mask}", rate.name()));
+                    }
+                }
+            }
+        }
+        out.tag("tiny-config-all-subsets-enumerated");
+    }
+    out.sample = Some(jobj(&[("all_subsets_of", jstr(&format!("k={k} r={r} rate={}", rate.name())))]));
 }
 
 /// A decoder for (k, r, size) that has a past: it was constructed for another
